@@ -530,12 +530,32 @@ func subFlateReader() mon.Sub {
 		},
 		Do: func(c *mon.C) {
 			resettable := c.I%2 == 0
+			// one case in three: the application's constructor carries configuration of its own - a preset
+			// dictionary both peers agreed on - which a reader after Reset has to have like a new one
+			var dict []byte
+			if c.I/12%3 == 1 {
+				dict = []byte("history data history data AAAA BBBB CCCC DDDD {\"type\":\"message\",\"payload\":")
+			}
 			ctor := func(r io.Reader) wsflate.Decompressor {
 				f := flate.NewReader(r)
+				if dict != nil {
+					f = flate.NewReaderDict(r, dict)
+				}
 				if resettable {
 					return f
 				}
 				return noReset{f}
+			}
+			compress := func(p []byte) []byte {
+				if dict == nil {
+					return compress(p)
+				}
+				var b bytes.Buffer
+				w, _ := flate.NewWriterDict(&b, 6, dict)
+				w.Write(p)
+				w.Flush()
+				out := b.Bytes()
+				return out[:len(out)-4]
 			}
 			hist := compress(bytes.Repeat([]byte("history data "), 1+c.Rng.Intn(300)))
 			hkind := c.I / 2 % 6
@@ -624,7 +644,7 @@ func subFlateReader() mon.Sub {
 			ca, cb := a.Close(), b.Close()
 			if !bytes.Equal(ra, rb) || fmt.Sprint(ea) != fmt.Sprint(eb) || fmt.Sprint(ca) != fmt.Sprint(cb) {
 				c.Fail(fmt.Sprintf("flate-reader/reset/history-%d", hkind), fmt.Sprintf("a decompression reader after Reset differs from a new one: %d bytes err=%v close=%v vs %d bytes err=%v close=%v", len(ra), ea, ca, len(rb), eb, cb),
-					map[string]interface{}{"history": hdesc, "resettable": resettable, "stream_variant": variant, "plan": plan.String(), "byte_reader": byteReader})
+					map[string]interface{}{"history": hdesc, "resettable": resettable, "preset_dictionary": dict != nil, "stream_variant": variant, "plan": plan.String(), "byte_reader": byteReader})
 				return
 			}
 			if variant == 0 && (!bytes.Equal(rb, msg) || eb != nil) {
